@@ -4,6 +4,7 @@ package c12
 import (
 	"bytes"
 	"context"
+	"encoding/base64"
 	"encoding/hex"
 	"encoding/json"
 	"fmt"
@@ -37,7 +38,7 @@ func TestMain(m *testing.M) { vstat.Main(m) }
 
 const ruleCreate = "create cluster --insecure-keys through the real CLI (cmd.New) into a temp dir: nodes 3..10, threshold default or 2..n, validators 1..3, network in {goerli, sepolia, hoodi, gnosis, chiado}, deposit amounts default or partial sets, compounding on/off; every third case through --definition-file with a harness-written definition of a drawn format version v1.0..v1.11 (unsigned operators, deposit amounts also unordered / repeated where the version carries them): the lock must then have that version and the config hash of the provided definition; " +
 	"oracle: every node's lock is identical and passes VerifyHashes + VerifySignatures, keystore i/j decrypts to a secret whose public key is lock.validators[j].public_shares[i], every deposit datum and builder registration verifies (harness-side spec verification) for the lock's validator key / amount / withdrawal credentials, a drawn t-subset of shares recombines to the validator key, combine output keystores match; non-trivial = t < n or > 1 deposit amount or > 1 validator; distinct by configuration"
-const ruleTamper = "tamper evidence: valid locks and definitions (harness-assembled locks of every format version v1.0..v1.11 - definition signed by every operator where the version has EIP-712 signatures, deposit data, registrations, aggregate and node signatures re-made over the recomputed lock hash - and the definitions embedded in them as definition files: full hash+signature verification; v1.11 locks with 2/3/5-fold Safe multisig signatures: hash verification; cluster.NewForT for v1.10 / v1.11, the committed cluster/examples locks v1.1, v1.2, v1.7: full hash+signature verification; the per-version golden locks v1.0..v1.11: hash verification) x every leaf of the JSON document x representative alteration (hex nibble flip, character change, +-1, bool flip, value emptied / zeroed, key removed, element removed / duplicated / swapped); altered document must fail to unmarshal, or fail VerifyHashes, or fail VerifySignatures; " +
+const ruleTamper = "tamper evidence: valid locks and definitions (harness-assembled locks of every format version v1.0..v1.11 - definition signed by every operator where the version has EIP-712 signatures, deposit data, registrations, aggregate and node signatures re-made over the recomputed lock hash - and the definitions embedded in them as definition files: full hash+signature verification; v1.11 locks with 2/3/5-fold Safe multisig signatures: hash verification; cluster.NewForT for v1.10 / v1.11, the committed cluster/examples locks v1.1, v1.2, v1.7: full hash+signature verification; the per-version golden locks v1.0..v1.11: hash verification) x every leaf of the JSON document x representative alteration (hex nibble flip, character change, +-1, bool flip, value emptied / zeroed, value made longer by trailing bytes or digits, key removed, element removed / duplicated / swapped); altered document must fail to unmarshal, or fail VerifyHashes, or fail VerifySignatures, and (fully verifiable locks) must also be refused by the lock loader cluster.LoadClusterLock; " +
 	"leaves outside the hashed / signed declaration (operator nonce of v1.0/v1.1; signature fields in hash-only mode) assert nothing; non-trivial = every (base, path, alteration)"
 
 var forkVersions = map[string]string{"goerli": "00001020", "gnosis": "00000064", "chiado": "0000006f", "sepolia": "90000069", "hoodi": "10000910"}
@@ -445,8 +446,50 @@ func isDefinitionDoc(doc []byte) bool {
 	return !isLock && isDef
 }
 
-// verifyLock decodes and verifies a lock, or a definition file when the document is one.
+// loaderAccepts runs the document through the lock loader `charon run` uses (cluster.LoadClusterLock with
+// verification on).
+func loaderAccepts(doc []byte) error {
+	f, err := os.CreateTemp("", "verif-c12-lock-*.json")
+	if err != nil {
+		panic("HARNESS-ERROR: " + err.Error())
+	}
+	defer os.Remove(f.Name())
+	if _, err := f.Write(doc); err != nil {
+		panic("HARNESS-ERROR: " + err.Error())
+	}
+	f.Close()
+	_, err = cluster.LoadClusterLock(context.Background(), f.Name(), false, nil)
+	return err
+}
+
+// verifyLock returns nil if the document is accepted as valid by some verification route: the Verify
+// methods called directly and, for a fully verifiable lock, the loader. An altered document must be refused by
+// every route.
 func verifyLock(doc []byte, full bool) error {
+	err := verifyDirect(doc, full)
+	if err != nil && full && !isDefinitionDoc(doc) {
+		if lerr := loaderAccepts(doc); lerr == nil {
+			return nil // the loader lets through what the Verify methods refuse
+		}
+	}
+	return err
+}
+
+// verifyAllRoutes: an unaltered base must be accepted by every route.
+func verifyAllRoutes(doc []byte, full bool) error {
+	if err := verifyDirect(doc, full); err != nil {
+		return err
+	}
+	if full && !isDefinitionDoc(doc) {
+		if err := loaderAccepts(doc); err != nil {
+			return fmt.Errorf("loader: %w", err)
+		}
+	}
+	return nil
+}
+
+// verifyDirect decodes and verifies a lock, or a definition file when the document is one.
+func verifyDirect(doc []byte, full bool) error {
 	if isDefinitionDoc(doc) {
 		var def cluster.Definition
 		if err := json.Unmarshal(doc, &def); err != nil {
@@ -541,7 +584,7 @@ func bases(t *testing.T) []base {
 		out = append(out, base{"definition-of/" + b.name, doc["cluster_definition"], true})
 	}
 	for _, b := range out {
-		if err := verifyLock(b.doc, b.full); err != nil {
+		if err := verifyAllRoutes(b.doc, b.full); err != nil {
 			if strings.HasPrefix(b.name, "NewForT") || strings.Contains(b.name, "assembled/") {
 				t.Fatalf("HARNESS-ERROR: base %s does not verify unaltered: %v", b.name, err)
 			}
@@ -574,6 +617,21 @@ func alterScalar(cur any, kind string, pos int) (any, bool) {
 				return nil, false
 			}
 			return json.Number("0"), true
+		}
+		return nil, false
+	}
+	if kind == "extend" { // the value made longer: trailing bytes / digits appended
+		switch v := cur.(type) {
+		case string:
+			if strings.HasPrefix(v, "0x") {
+				return v + []string{"00", "ab", "0000"}[pos%3], true
+			}
+			if _, err := base64.StdEncoding.DecodeString(v); err == nil && len(v) >= 8 && len(v)%4 == 0 && !strings.ContainsAny(v, "-:. ") {
+				return v + "AAAA", true
+			}
+			return v + "0", true
+		case json.Number:
+			return json.Number(string(v) + "0"), true
 		}
 		return nil, false
 	}
@@ -722,6 +780,12 @@ func TestC12Tamper(t *testing.T) {
 		if unhashed.MatchString(path) || (!b.full && signatureOnly.MatchString(path)) {
 			return false, false
 		}
+		if kind == "extend" && !b.full {
+			// zero bytes appended to a fixed-size value are refused by the length checks of signature
+			// verification (keys, signatures), which a hash-only base cannot run: full bases only
+			vstat.Count("extend_on_hash_only_base(no assertion)", 1)
+			return false, false
+		}
 		if (kind == "empty" || kind == "removeKey") && path == ".signature_aggregate" && legacyNoAggregate(root) {
 			// declared tolerance of the format: v1.0 / v1.1 locks were written without an aggregate
 			// signature and verify without one
@@ -764,9 +828,9 @@ func TestC12Tamper(t *testing.T) {
 			var ls, arrs []leaf
 			collectLeaves(root, "", nil, "", 0, &ls, &arrs)
 			for _, l := range ls {
-				for _, kind := range []string{"plus1", "flip", "empty", "removeKey"} {
+				for _, kind := range []string{"plus1", "flip", "empty", "removeKey", "extend"} {
 					for _, pos := range []int{0, 3, 17, 141, 300, 1<<20 - 1} {
-						if (kind == "empty" && pos > 3) || (kind == "removeKey" && pos > 0) {
+						if (kind == "empty" && pos > 3) || (kind == "removeKey" && pos > 0) || (kind == "extend" && pos > 17) {
 							continue
 						}
 						if a, _ := check(func(f string, a ...any) { t.Fatalf(f, a...) }, b, l.path, kind, pos, false); a {
@@ -804,7 +868,7 @@ func TestC12Tamper(t *testing.T) {
 			kind = rapid.SampledFrom([]string{"remove", "duplicate", "swap"}).Draw(rt, "arrayKind")
 		} else {
 			path = ls[rapid.IntRange(0, len(ls)-1).Draw(rt, "leaf")].path
-			kind = rapid.SampledFrom([]string{"plus1", "flip", "plus1", "flip", "empty", "removeKey"}).Draw(rt, "kind")
+			kind = rapid.SampledFrom([]string{"plus1", "flip", "plus1", "flip", "empty", "removeKey", "extend"}).Draw(rt, "kind")
 		}
 		pos := rapid.IntRange(0, 2000).Draw(rt, "pos")
 		asserted, skipped := check(func(f string, a ...any) { rt.Fatalf(f, a...) }, b, path, kind, pos, arrayOp)
